@@ -660,7 +660,7 @@ func dense(c *run.Ctx, k *capture) {
 }
 
 func random(c *run.Ctx, k *capture) {
-	N := c.N(24000, 600000)
+	N := c.N(24000, 450000)
 	for i := 0; i < N; i++ {
 		if !c.Mine(i) {
 			continue
